@@ -1100,6 +1100,24 @@ func (g *formatsG) genOptions(p formatsPlan) {
 			}
 		}
 	}
+	// the extreme values of every integer type, as members and as non-members (canonical decimal rendering: a value
+	// above MaxInt64 must not come out negative, MinInt64 must keep its digits)
+	ext := []struct{ gotype, nk, txt string }{
+		{"uint", "uint", "18446744073709551615"}, {"uint64", "uint", "18446744073709551615"}, {"uint64", "uint", "9223372036854775808"},
+		{"uint32", "uint", "4294967295"}, {"uint16", "uint", "65535"}, {"uint8", "uint", "255"},
+		{"int", "int", "9223372036854775807"}, {"int64", "int", "-9223372036854775808"}, {"int32", "int", "-2147483648"}, {"int8", "int", "-128"},
+	}
+	for _, e := range ext {
+		g.num("in", "("+e.txt+"/5)", e.gotype, e.nk, e.txt, "num")
+		g.num("in", "(7/"+e.txt+")", e.gotype, e.nk, e.txt, "num")
+		g.num("in", "(-1/3)", e.gotype, e.nk, e.txt, "num")
+		g.num("in", "(0/1/"+e.txt[:len(e.txt)-1]+")", e.gotype, e.nk, e.txt, "num")
+		g.list("unique", "", "[]"+e.gotype, e.nk, []string{e.txt, "1", e.txt}, "list")
+		g.list("unique", "", "[]"+e.gotype, e.nk, []string{e.txt, "1", "2"}, "list")
+		if !strings.HasPrefix(e.txt, "-") {
+			g.list("ints", "", "[]"+e.gotype, e.nk, []string{"1", e.txt}, "list")
+		}
+	}
 	// prefix / suffix
 	pc := []rune("abcxyzAB0189中文_-.:/@#()+")
 	for a := 0; a < p.args; a++ {
